@@ -235,6 +235,48 @@ func init() {
 		f.data = append([]*Term(nil), sliceTerms(in, a[1])...)
 		return Iface{}
 	})
+	regSimple("os.ReadDir", func(in *Interp, a []Value) Value {
+		dir := in.cpath(a[0], "directory name")
+		fs := in.memfs()
+		if d := fs.files[dir]; d == nil || !d.isDir {
+			return Tuple{Slice{}, in.fsErr("notexist")}
+		}
+		var names []string
+		for k := range fs.files {
+			if k != dir && filepath.Dir(k) == dir {
+				names = append(names, k)
+			}
+		}
+		sort.Strings(names)
+		op := in.prog.ImportedPackage("os")
+		dt := op.Type("unixDirent").Type()
+		st := dt.Underlying().(*types.Struct)
+		out := make([]Value, len(names))
+		for i, n := range names {
+			val := in.zero(dt).(Struct)
+			for j := 0; j < st.NumFields(); j++ {
+				switch st.Field(j).Name() {
+				case "parent":
+					val[j] = Str{c: dir}
+				case "name":
+					val[j] = Str{c: filepath.Base(n)}
+				case "typ":
+					if fs.files[n].isDir {
+						val[j] = in.tb.Const(TU32, uint64(1<<31))
+					}
+				case "info":
+					val[j] = in.fileInfo(n, fs.files[n])
+				}
+			}
+			cell := new(Value)
+			*cell = val
+			out[i] = Iface{t: types.NewPointer(dt), v: Ptr{cell: cell}}
+		}
+		if len(out) == 0 {
+			return Tuple{Slice{a: []Value{}}, Iface{}}
+		}
+		return Tuple{Slice{a: out}, Iface{}}
+	})
 	regSimple("path/filepath.Glob", func(in *Interp, a []Value) Value {
 		pat := cstr(in, a[0], "glob pattern")
 		var names []string
